@@ -157,7 +157,7 @@ def declare_unknown_callees(src, frontend, X):
 def havoc_typed_lets(src, frontend):
     """R5-auto (let): a statement `let NAME: TYPE = EXPR;` whose initialiser contains a construct outside the verifier's dialect (an iterator chain, a closure it cannot
     type) is replaced by `let NAME: TYPE = verif_nondet_val::<TYPE>();` - any value of that type.  Sound for proofs (every value is explored) and it keeps an edited
-    function decidable.  Only lets WITH a type annotation qualify (the type must be known).  Returns (new_src, [descriptions]) or (None, [])."""
+    function decidable.  Only lets WITH a type annotation qualify (the type must be known), and `let NAME = matches!(..);`, which is a bool.  Returns (new_src, [descriptions]) or (None, [])."""
     bsrc = src.encode("utf-8")
     toks = extract.code_tokens(src)
     edits = []
@@ -173,11 +173,17 @@ def havoc_typed_lets(src, frontend):
             j = idx + 1
             if j < len(toks) and src[toks[j][1]:toks[j][2]] == "mut":
                 j += 1
-            if j + 1 >= len(toks) or toks[j][0] != "ident" or src[toks[j + 1][1]] != ":":
+            if j + 1 >= len(toks) or toks[j][0] != "ident":
+                continue
+            typed = src[toks[j + 1][1]] == ":"
+            # `let NAME = matches!(..);` has no annotation but its type is known: bool
+            is_matches = (not typed and j + 3 < len(toks) and src[toks[j + 1][1]] == "=" and src[toks[j + 1][1]:toks[j + 1][1] + 2] != "=="
+                          and src[toks[j + 2][1]:toks[j + 2][2]] == "matches" and src[toks[j + 3][1]] == "!")
+            if not typed and not is_matches:
                 continue
             name = src[toks[j][1]:toks[j][2]]
             depth, eq, end = 0, None, None
-            for k in range(j + 2, len(toks)):
+            for k in range(j + 2 if typed else j + 1, len(toks)):
                 ch = src[toks[k][1]]
                 if toks[k][0] != "punct":
                     continue
@@ -194,7 +200,7 @@ def havoc_typed_lets(src, frontend):
                     break
             if eq is None or end is None or not (toks[eq][2] <= off < toks[end][1]):
                 continue
-            ty = src[toks[j + 1][2]:toks[eq][1]].strip()
+            ty = src[toks[j + 1][2]:toks[eq][1]].strip() if typed else "bool"
             best = (toks[eq][2], toks[end][1], name, ty)
         if best and best[:2] not in [(a, b) for a, b, _, _ in edits]:
             edits.append(best)
